@@ -109,8 +109,10 @@ CLAIMS = {
             "ensure_lookup_tables_populated",
             "function symbols and variable symbols get the same re-lookup treatment (still-present => not removed; "
             "default-version re-export rule) in the declared and in the unreferenced-symbol regions; R-VERLOOKUP: the "
-            "lookup behind both answers only with the requested version",
-            "the set difference over the runtime symbol sets",
+            "lookup behind both answers only with the requested version; R-SYMDIFF: deletions index the first corpus and are "
+            "reported exactly when the symbol is not found in the second, insertions the other way round (worlds found / "
+            "not found over both unreferenced-symbol regions)",
+            "the edit scripts over the runtime symbol sets (diff_utils)",
             "§3 R-SIBSYM; §4 C19"),
     "C28": ("who-gates rule: every is_linux_kernel() value that selects ksymtab filtering is conjoined with, or "
             "data-dependent (through parameters, all call sites) on, load_in_linux_kernel_mode",
